@@ -140,25 +140,6 @@ func init() {
 		}
 		return okS(cmd.VerifReadCurrentRegex(p, string(a[1]), uint8(len(a[2]))))
 	}
-	// what compareRegex prints for a rule id and two expressions (text mode): the whole display
-	implOps["compare.view"] = func(a [][]byte) Result {
-		_, root := workerCtx()
-		tmp, err := os.CreateTemp(root, "view")
-		if err != nil {
-			return Result{Status: "harness-error", Note: err.Error()}
-		}
-		defer os.Remove(tmp.Name())
-		old := os.Stdout
-		os.Stdout = tmp
-		cerr := cmd.VerifCompareRegex(string(a[0]), string(a[2]), string(a[1]))
-		os.Stdout = old
-		tmp.Close()
-		if cerr == nil {
-			return diag("equal")
-		}
-		b, _ := os.ReadFile(tmp.Name())
-		return ok(b)
-	}
 	implOps["path.clean"] = func(a [][]byte) Result { return okS(path.Clean(string(a[0]))) }
 	implOps["path.join"] = func(a [][]byte) Result {
 		var es []string
@@ -559,58 +540,56 @@ func genUpdateCases(r *rand.Rand, tier string, prop string) []Case {
 // above 0x7f (pieces are cut by bytes)
 func compareViewCases(r *rand.Rand, n int) []Case {
 	var cases []Case
-	alpha := []string{"a", "b", "(?:x|y)", `\x5c`, "[0-9]", "é", " ", "|", `\"`, "%", "~"}
+	// the display is observed on the binary: the stored expression is the operand of a rules file (anything that can stand
+	// between the quotes), the generated one is what a one-line assembly file of letters, digits and `_` compiles to: itself
+	alpha := []string{"a", "b", "(?:x|y)", "[0-9]", "é", " ", "|", "%", "~", "_", "0"}
 	blanks := true
+	literal := false
 	mk := func(l int) string {
 		var sb strings.Builder
 		for sb.Len() < l {
 			t := pick(r, alpha)
+			if literal {
+				t = pick(r, []string{"a", "b", "_", "0", "z", "9"})
+			}
 			if t == " " && !blanks {
 				t = "_"
 			}
 			sb.WriteString(t)
 		}
-		return sb.String()[:l]
+		return strings.TrimSpace(sb.String()[:l])
 	}
+	mkGen := func(l int) string { literal = true; defer func() { literal = false }(); return mk(l) }
 	for i := 0; i < n; i++ {
 		blanks = i%4 == 0
-		l := pick(r, []int{0, 1, 49, 50, 51, 99, 100, 101, 150, 10, 75, 120, 500, 1000})
-		cur := mk(l)
-		gen := cur
+		l := pick(r, []int{1, 2, 49, 50, 51, 99, 100, 101, 150, 10, 75, 120, 500, 1000})
+		gen := mkGen(l)
+		cur := gen
 		switch i % 7 {
 		case 0:
-			gen = mk(pick(r, []int{0, 1, 50, 51, 100, 149, 150, 151, 30}))
+			cur = mk(pick(r, []int{1, 50, 51, 100, 149, 150, 151, 30}))
 		case 1:
-			if l > 0 {
-				at := r.Intn(l)
-				gen = cur[:at] + "#" + cur[at+1:]
-			}
+			at := r.Intn(l)
+			cur = gen[:at] + "#" + gen[at+1:]
 		case 2:
-			gen = cur + mk(1+r.Intn(120))
+			cur = gen + mk(1+r.Intn(120))
 		case 3:
-			if l > 0 {
-				gen = cur[:r.Intn(l)]
-			}
+			cur = gen[:r.Intn(l)]
 		case 4:
-			if l > 0 {
-				at := r.Intn(l)
-				gen = cur[:at] + mk(1+r.Intn(3)) + cur[at:]
-			}
+			at := r.Intn(l)
+			cur = gen[:at] + mk(1+r.Intn(3)) + gen[at:]
 		case 5:
-			if l > 1 {
-				gen = cur[:l-1] + "#"
-			}
+			cur = gen[:l-1] + "#"
 		case 6:
-			if l > 0 {
-				gen = "#" + cur[1:]
-			}
+			cur = "#" + gen[1:]
 		}
+		cur = strings.TrimSpace(cur)
 		if gen == cur {
-			gen = cur + "x"
+			cur = gen + "x"
 		}
-		id := pick(r, []string{"942100", "932100", "9", "1234567"})
+		id := pick(r, []string{"942100", "932100", "920470"})
 		args := [][]byte{[]byte(id), []byte(cur), []byte(gen)}
-		cases = append(cases, Case{Kind: "compare-view", Ops: []Op{{"compare.view", args}}, Oracles: []Op{{"c12.view", args}}})
+		cases = append(cases, Case{Kind: "compare-view", Ops: []Op{{"cli.compareView", args}}, Oracles: []Op{{"c12.view", args}}})
 	}
 	return cases
 }
@@ -623,7 +602,7 @@ var reViewRow = regexp.MustCompile(`^(current:  {6}|generated: {5})(.*?) +(~ )?\
 // tie with the model covers them.)
 func oracleC12View(p *Pair, env *Env, a [][]byte) *Failure {
 	cur, gen := string(a[1]), string(a[2])
-	v := p.Impl(Op{"compare.view", a}, env.timeout)
+	v := p.Impl(Op{"cli.compareView", a}, env.timeout)
 	if v.Status != "ok" || !strings.Contains(string(v.Out[0]), "Regex of "+string(a[0])+" has changed") {
 		// this is what C12 states; how the change is displayed (below) is what the theorems of C12View say about the
 		// model of the display — checked on the real output as obligations, not as the property
